@@ -277,13 +277,19 @@ end traverse
 section slabsound
 open Gen.geometry
 /-- one axis of the slab test does not reject, and keeps `t` strictly inside a non-empty range, when the ray
-    point at parameter `t` lies strictly inside the (widened) slab -/
-theorem slabComponent_sound (o d tmin tmax lo hi t : ℝ) (hd : d ≠ 0)
+    point at parameter `t` lies strictly inside the (widened) slab — zero direction component included -/
+theorem slabComponent_sound (o d tmin tmax lo hi t : ℝ)
     (h1 : lo < o + d * t) (h2 : o + d * t < hi) (ha : tmin ≤ t) (hb : t ≤ tmax) (hc : tmin < tmax) :
     (slabComponent o d tmin tmax lo hi).1 = false ∧
     (slabComponent o d tmin tmax lo hi).2.1 ≤ t ∧ t ≤ (slabComponent o d tmin tmax lo hi).2.2 ∧
     (slabComponent o d tmin tmax lo hi).2.1 < (slabComponent o d tmin tmax lo hi).2.2 := by
-  rw [slabComponent_eq]
+  by_cases hd : d = 0
+  · subst hd
+    simp only [zero_mul, add_zero] at h1 h2
+    rw [slabComponent_zero_in _ _ _ _ _ h1 h2]
+    refine ⟨?_, ha, hb, hc⟩
+    simp only [decide_eq_false_iff_not, not_le]; exact hc
+  rw [slabComponent_ne _ _ _ _ _ _ hd, slabArith_eq]
   set k := 1 / d with hk
   have hdk : d * k = 1 := by rw [hk]; field_simp
   have ht : t = (d * t) * k := by
@@ -318,20 +324,20 @@ theorem slabComponent_sound (o d tmin tmax lo hi t : ℝ) (hd : d ≠ 0)
   simp only [decide_eq_false_iff_not, not_le]
   exact e3
 
-/-- `slab_sound`: if the ray `o + t·d` (no direction component zero) is inside box `a` for some parameter `t` of a
-    non-empty range `[mn, mx]`, the slab test accepts `a` for that range -/
+/-- `slab_sound`: if the ray `o + t·d` (ANY direction, zero components included) is inside box `a` for some
+    parameter `t` of a non-empty range `[mn, mx]`, the slab test accepts `a` for that range -/
 theorem slab_sound_aux (a : Box) (o d : P3) (mn mx t : ℝ)
-    (hd : d.x ≠ 0 ∧ d.y ≠ 0 ∧ d.z ≠ 0) (hr : mn < mx) (h1 : mn ≤ t) (h2 : t ≤ mx)
+    (hr : mn < mx) (h1 : mn ≤ t) (h2 : t ≤ mx)
     (hin : a.Contains (o.Add (d.Scale t)) = true) : intersectsRayInRange a o d mn mx = true := by
   rw [aabb_contains_iff] at hin
   simp only [V3.Add, V3.Scale] at hin
   obtain ⟨a1, a2, a3, a4, a5, a6⟩ := hin
   have keps : (0 : ℝ) < kEps := by simp [kEps]
-  obtain ⟨x0, x1, x2, x3⟩ := slabComponent_sound o.x d.x mn mx (a.Min.x - kEps) (a.Max.x + kEps) t hd.1
+  obtain ⟨x0, x1, x2, x3⟩ := slabComponent_sound o.x d.x mn mx (a.Min.x - kEps) (a.Max.x + kEps) t
     (by linarith) (by linarith) h1 h2 hr
-  obtain ⟨y0, y1, y2, y3⟩ := slabComponent_sound o.y d.y _ _ (a.Min.y - kEps) (a.Max.y + kEps) t hd.2.1
+  obtain ⟨y0, y1, y2, y3⟩ := slabComponent_sound o.y d.y _ _ (a.Min.y - kEps) (a.Max.y + kEps) t
     (by linarith) (by linarith) x1 x2 x3
-  obtain ⟨z0, _, _, _⟩ := slabComponent_sound o.z d.z _ _ (a.Min.z - kEps) (a.Max.z + kEps) t hd.2.2
+  obtain ⟨z0, _, _, _⟩ := slabComponent_sound o.z d.z _ _ (a.Min.z - kEps) (a.Max.z + kEps) t
     (by linarith) (by linarith) y1 y2 y3
   simp only [intersectsRayInRange, x0, y0, z0, Bool.false_eq_true, if_false]
 end slabsound
